@@ -62,7 +62,7 @@ impl Monitor for C06 {
                           JV::Obj(vec![("k".into(), JV::Num("5".into())), ("g".into(), JV::Str("x".into())), ("i".into(), JV::Str("7".into())), ("r".into(), JV::Str("1.5".into())), ("b".into(), JV::Num("1".into())), ("s".into(), JV::Bool(false)), ("ia".into(), JV::Num("3".into())), ("sa".into(), JV::Str("a".into())), ("ts".into(), JV::Num("5".into())), ("iv".into(), JV::Num("6".into()))]).to_case()),
                     _ => {
                         // a regular line on which the NOT NULL column (if any) is NULL
-                        let dc = DataCfg { null_rate: t.schema.cols.iter().map(|(c, _)| if c == "g" || c == "i" { 1000 } else { 300 }).collect(), hostile: false, keys: 3, exact: true, big_ints: false, zeros: false, mid_ints: false };
+                        let dc = DataCfg { null_rate: t.schema.cols.iter().map(|(c, _)| if c == "g" || c == "i" { 1000 } else { 300 }).collect(), hostile: false, keys: 3, exact: true, big_ints: false, zeros: false, mid_ints: false, huge_reals: false, ulp_reals: false };
                         let cells: Vec<Cell> = t.schema.cols.iter().enumerate().map(|(ci, (name, ty))| std_cell(rng, name, ty, &dc, ci)).collect();
                         (render_line(&t, &cells), cells_to_jv(&t, &cells).to_case())
                     }
@@ -74,7 +74,7 @@ impl Monitor for C06 {
                     4 => { let base = strs(&case, "lines"); let l = base.get(rng.below(base.len().max(1))).cloned().unwrap_or_default(); (format!("{}|extra", l), J::Null) }
                     5 => { let base = strs(&case, "lines"); let l = base.get(rng.below(base.len().max(1))).cloned().unwrap_or_default(); (l.replacen('=', ":", 1), J::Null) }
                     _ => {
-                        let dc = DataCfg { null_rate: t.schema.cols.iter().map(|(c, _)| if c == "g" || c == "i" { 1000 } else { 300 }).collect(), hostile: false, keys: 3, exact: true, big_ints: false, zeros: false, mid_ints: false };
+                        let dc = DataCfg { null_rate: t.schema.cols.iter().map(|(c, _)| if c == "g" || c == "i" { 1000 } else { 300 }).collect(), hostile: false, keys: 3, exact: true, big_ints: false, zeros: false, mid_ints: false, huge_reals: false, ulp_reals: false };
                         let cells: Vec<Cell> = t.schema.cols.iter().enumerate().map(|(ci, (name, ty))| std_cell(rng, name, ty, &dc, ci)).collect();
                         (render_line(&t, &cells), J::Null)
                     }
